@@ -1,14 +1,35 @@
-use qrlew::{builder::{Ready, With}, sql::relation::QueryWithRelations, data_type::DataType, relation::{Relation, Variant as _}, sql::parse, hierarchy::Hierarchy};
-use std::sync::Arc;
+use qv::props::dp::*;
+use qv::props::sqlprops::{compile, Compiled};
+use qv::sqlx::privacy::DpSpec;
+use qrlew::relation::{Relation, Variant as _};
+fn dump(r: &Relation, depth: usize, seen: &mut Vec<*const Relation>) {
+    let pad = "  ".repeat(depth);
+    if seen.contains(&(r as *const Relation)) { println!("{pad}<shared {}>", r.name()); return; }
+    seen.push(r as *const Relation);
+    match r {
+        Relation::Map(m) => {
+            println!("{pad}MAP {} filter={:?} limit={:?}", m.name(), m.filter().as_ref().map(|f| f.to_string()), m.limit());
+            for (f, e) in m.schema().iter().zip(m.projection().iter()) { println!("{pad}   {} := {}", f.name(), e.to_string().chars().take(300).collect::<String>()); }
+        }
+        Relation::Reduce(rd) => {
+            println!("{pad}REDUCE {} group_by={:?}", rd.name(), rd.group_by().iter().map(|c| c.to_string()).collect::<Vec<_>>());
+            for (f, a) in rd.schema().iter().zip(rd.aggregate().iter()) { println!("{pad}   {} := {}({})", f.name(), a.aggregate(), a.column()); }
+        }
+        Relation::Join(j) => println!("{pad}JOIN {} {} fields={:?}", j.name(), j.operator().to_string(), j.schema().iter().map(|f| f.name().to_string()).collect::<Vec<_>>()),
+        Relation::Table(t) => println!("{pad}TABLE {}", t.name()),
+        Relation::Values(v) => println!("{pad}VALUES {}", v.name()),
+        Relation::Set(s) => println!("{pad}SET {}", s.name()),
+    }
+    for i in r.inputs() { dump(i, depth + 1, seen); }
+}
 fn main() {
-    let table: Relation = Relation::table().name("t").schema(
-        qrlew::relation::Schema::builder().with(("x", DataType::integer_interval(1000, 5_000_000_000))).with(("s", DataType::text())).build()
-    ).size(100).build();
-    let rels: Hierarchy<Arc<Relation>> = Hierarchy::from([(vec!["t".to_string()], Arc::new(table))]);
+    let schema = DpSchema { n_users: 4, n_orders: 8, n_items: 3, x: qv::sqlx::db::ColTy::Float(-5.0, 20.0), x_nullable: false, a: qv::sqlx::db::ColTy::Int(0, 10), y: qv::sqlx::db::ColTy::Int(0, 5), g: vec!["a".into(), "b".into()], kind: vec![0, 1], pk_hi: 500, pu_variant: 0, hash: false, dangling: false, row_picks: vec![7; 400] };
+    let db = schema.db();
     for sql in std::env::args().skip(1) {
-    let q = parse(&sql).unwrap();
-    let t0 = std::time::Instant::now();
-    let r = Relation::try_from(QueryWithRelations::new(&q, &rels));
-    println!("{} => {:?} in {:?}", sql, r.map(|r| r.schema().to_string()), t0.elapsed());
+        let Compiled::Ok(rel) = compile(&sql, &db) else { println!("not compiled"); continue };
+        let dp = DpSpec { epsilon: 1.0, delta: 1e-3, tau_share: 0.5, max_mult: 5.0, max_mult_share: 1.0, max_groups: 3 };
+        let rw = rel.rewrite_with_differential_privacy(&db.relations(), None, schema.privacy_unit(), dp.params()).unwrap();
+        println!("EVENT {}", rw.dp_event());
+        dump(rw.relation(), 0, &mut vec![]);
     }
 }
